@@ -11,7 +11,9 @@ RULE = ("programs of 2-4 real threads, each <=4 operations from {print (unique p
         "when auto_refresh is on (its timer fires when the scheduler says so), on one recording console with and "
         "without a Live / Progress display; run under a cooperative scheduler with a possible preemption at every "
         "executed line of rich/console.py, live.py, live_render.py, progress.py, file_proxy.py, at every lock / event / "
-        "thread operation and at every file write; schedules chosen by seeded random walk and PCT (depth 2-4). "
+        "thread operation and at every file write; schedules chosen by seeded random walk and PCT (depth 2-4), plus - on "
+        "tiny programs (<=3 threads x <=2 ops) - every placement of <=1 (quick) / <=2 (thorough) alternative choices at "
+        "the coarse yield points (lock/event/thread operations, file writes, forced switches), depth-first. "
         "Non-trivial: >=2 threads wrote to the file and >=3 context switches happened; distinct by (program, "
         "configuration, strategy, seed); the evidence also counts distinct write interleavings.")
 ASSUMPTIONS = ["the scheduler serialises real threads; a race whose window lies entirely inside C code or another "
@@ -120,9 +122,6 @@ _FRAME = re.compile(r"F\d+_\d+-\d+")
 
 def wl_schedules(ctx, rng, case_no):
     from rv.sched import scheduler as S
-    from rv.sched import coop
-    from rich.console import Console
-    from rich.text import Text
     display = rng.choice(["none", "none", "live", "live", "live_auto", "progress", "progress_auto"])
     terminal = True if display != "none" else rng.random() < 0.6
     prog = gen_program(rng, display)
@@ -132,11 +131,46 @@ def wl_schedules(ctx, rng, case_no):
         strategy = S.RandomWalk(sseed, switch_prob=rng.choice([0.02, 0.1, 0.3]))
     else:
         strategy = S.PCT(sseed, depth=int(strat_kind[3]), est_steps=rng.choice([300, 1000, 3000]))
+    execute(ctx, prog, display, terminal, rng.choice([0, 1, 2, 3]), rng.choice([6, 12]), strategy, strat_kind, sseed)
+
+
+def wl_dfs(ctx, rng, case_no):
+    """Systematic: every placement of <= c alternative choices at the coarse yield points (lock / event / thread
+    operations, file writes, forced switches) of a tiny program; c = 1 (quick) / 2 (thorough)."""
+    from rv.sched import scheduler as S
+    display = rng.choice(["none", "live", "live", "live_auto", "progress"])
+    terminal = True
+    full = gen_program(rng, display)
+    prog = [ops[:2] for ops in full[:3]]
+    bound = 2 if ctx.tier == "thorough" else 1
+    firings = rng.choice([0, 1])
+    height = 12
+    n = 0
+    gen = S.explore_bounded(lambda strat: execute(ctx, prog, display, terminal, firings, height, strat,
+                                                  "dfs%d" % bound, 0, plan_of=strat),
+                            bound=bound, max_runs=400 if ctx.tier == "thorough" else 60)
+    exhausted = None
+    try:
+        while True:
+            next(gen)
+            n += 1
+    except StopIteration as stop:
+        exhausted = stop.value
+    ctx.count("dfs_programs")
+    ctx.count("dfs_schedules", n)
+    ctx.hist("dfs_space_exhausted", "yes" if exhausted else "no")
+
+
+def execute(ctx, prog, display, terminal, firings, height, strategy, strat_kind, sseed, plan_of=None):
+    from rv.sched import scheduler as S
+    from rv.sched import coop
+    from rich.console import Console
+    from rich.text import Text
     sched = S.Scheduler(strategy, max_steps=600000)
-    holder["firings"] = rng.choice([0, 1, 2, 3])
+    holder["firings"] = firings
     _instrument(sched)
     file = coop.RecordingFile(sched, tty=terminal)
-    console = Console(file=file, width=60, height=rng.choice([6, 12]), force_terminal=terminal, color_system="truecolor",
+    console = Console(file=file, width=60, height=height, force_terminal=terminal, color_system="truecolor",
                       legacy_windows=False, record=True, log_time=False, log_path=False, _environ={}, highlight=False)
     console._lock = coop.CoopRLock(sched, "console._lock")
     console._record_buffer_lock = coop.CoopRLock(sched, "console._record_buffer_lock")
@@ -228,6 +262,8 @@ def wl_schedules(ctx, rng, case_no):
     ctx.count("mon.deadlock_detector")
     wit = {"display": display, "terminal": terminal, "program": prog, "strategy": strat_kind, "schedule_seed": sseed,
            "timer_firings": holder["firings"], "outcome": outcome, "switches": sched.switches, "steps": sched.step}
+    if plan_of is not None:
+        wit["preemption_plan"] = sorted(plan_of.plan.items())
     if outcome == "watchdog":
         ctx.mark_inconclusive("schedule watchdog fired (30 s): %r" % (wit,))
         return
@@ -350,7 +386,9 @@ def wl_schedules(ctx, rng, case_no):
     ctx.hist("display", display)
     ctx.hist("strategy", strat_kind)
     ctx.hist("switches", min(sched.switches // 10 * 10, 100))
-    ctx.case_done(("s", repr(prog), display, terminal, strat_kind, sseed), len(writers) >= 2 and sched.switches >= 3,
+    sig_plan = tuple(sorted(plan_of.plan.items())) if plan_of is not None else None
+    ctx.case_done(("s", repr(prog), display, terminal, strat_kind, sseed, firings, sig_plan),
+                  len(writers) >= 2 and sched.switches >= 3,
                   {"display": display, "program": prog, "strategy": strat_kind, "seed": sseed,
                    "switches": sched.switches, "steps": sched.step,
                    "write_order": [w[1] for w in file.writes][:30]})
@@ -379,7 +417,9 @@ def taint(events, writes):
 
 
 def workloads(tier):
-    return [WL("schedules", wl_schedules, 400000 if tier == "thorough" else 6000)]
+    big = tier == "thorough"
+    return [WL("schedules", wl_schedules, 400000 if big else 6000),
+            WL("bounded_preemption_dfs", wl_dfs, 2000 if big else 48)]
 
 
 LEVEL_TEXT = ("Runs small multi-threaded programs on one real console under a cooperative scheduler that serialises the "
